@@ -361,7 +361,10 @@ def run_bind(ck, report, replay=None):
                                               obval_coq(r.get("real_super"))))
     ctype = "sig * call * option binding * option binding * option bval"
     pred_cpy = "fun '(s, c, cpy, real, rs) => obinding_eqb (cpython_bind s c) cpy"
-    pred_real = ("fun '(s, c, cpy, real, rs) => obinding_eqb (tracer_bind s c) real && "
+    # bind_args receives a dict (repeated keywords cannot reach it; the ast.Call handler rejects them before - that half
+    # is tied end-to-end); the direct tie compares Bind.bind_args on the calls without repeated keyword
+    pred_real = ("fun '(s, c, cpy, real, rs) => if has_dup (map fst (c_kws c)) then true else "
+                 "obinding_eqb (bind_args s (c_pos c) (c_kws c)) real && "
                  "match real with Some b => obval_eqb (tracer_super_arg s b) rs | None => true end")
     bad_cpy = set(common.coq_bad_indices(ck, "bind_cpy", PREAMBLE, ctype, terms, pred_cpy))
     bad_real = set(common.coq_bad_indices(ck, "bind_real", PREAMBLE, ctype, terms, pred_real))
@@ -396,10 +399,9 @@ def run_bind(ck, report, replay=None):
                    rep, no_input=True)
         # (2) the property itself on the real result (spec = CPython's own answer)
         spec_ok = True
-        if r["cpy"] is None and r["real"] is not None and c.has_dup():
-            # bind_args receives a dict: a repeated keyword has already been merged by its caller (the ast.Call
-            # handler).  Whether the COMPILER accepts such a call is decided end-to-end in run_bind_e2e.
-            ck.count("direct_tie_repeated_keyword_merged_by_caller")
+        if c.has_dup():
+            # cannot reach bind_args (a dict); the compiler's answer is checked end-to-end in run_bind_e2e
+            ck.count("direct_tie_repeated_keyword_skipped")
         elif r["cpy"] is None and r["real"] is not None:
             spec_ok = False
             report({"class": "cpython-rejected-call-accepted"},
@@ -414,7 +416,7 @@ def run_bind(ck, report, replay=None):
         ck.obligation(ok_real and spec_ok)
         if not ok_real and spec_ok:
             report({"class": "bind-model-vs-code"},
-                   "Bind.tracer_bind no longer describes FunctionDefinition.bind_args (the real result still satisfies the "
+                   "Bind.bind_args no longer describes FunctionDefinition.bind_args (the real result still satisfies the "
                    "property on this input)", rep, no_input=True)
         if i % 977 == 3:
             ck.sample({"def": "def f(%s)" % sig.params_src(), "call": "f" + c.src, "cpython": r["cpy"], "real": r["real"]})
@@ -625,9 +627,7 @@ def bind_program(name, sig: Sig, variant, calls):
             body = ["f = lambda %s: %s" % (sig.params_src(), body_expr), "return f" + c.src]
         else:
             body = ["return %s%s" % (callee, c.src)]
-        crash = variant in ("local", "lambda") and any(d is None for _, d in sig.kwonly)
-        probes.append(Probe(body, meta={"sig": sig, "call": c, "variant": variant, "classify_crash": crash,
-                                        "expect_reject": crash or (variant in ("local", "lambda") and uses_default(sig, c))}))
+        probes.append(Probe(body, meta={"sig": sig, "call": c, "variant": variant}))
     return Program(name, "\n".join(defs), probes)
 
 
@@ -645,12 +645,16 @@ def run_bind_e2e(ck, report):
     rng = ck.rng
     n_sig = 36 if ck.tier == "quick" else 300
     programs = []
-    # regression corpus: the shapes of the two findings + upstream fn_j
+    # regression corpus: the failing inputs of the defects fixed by bf02a0d / bf64bc4 / 571f6ca + upstream fn_j
     corpus = [
         (Sig([], [(0, None), (1, 71)], None, [], None), "global", [Call([], [(0, 40), (0, 41)], "(**{'p0': 40}, **{'p0': 41})"),
                                                                    Call([10], [(1, 40)], "(10, p1=40)")]),
         (Sig([], [(0, None), (1, 71)], None, [], None), "local", [Call([10], [], "(10)"), Call([10], [(1, 40)], "(10, p1=40)")]),
         (Sig([(0, 70)], [], 1, [(2, 80)], 3), "global", [Call([10, 11, 12], [(2, 13), (0, 14)], "(10, 11, 12, p2=13, p0=14)")]),
+        (Sig([], [(0, None), (1, 71)], None, [], None), "lambda", [Call([10], [], "(10)"), Call([], [(0, 40), (0, 41)], "(p0=40, **{'p0': 41})")]),
+        (Sig([], [], None, [(1, None), (0, 81)], 2), "local", [Call([], [(0, 40), (21, 41), (1, 42)], "(**{'p0': 40}, p21=41, **{'p1': 42})"),
+                                                               Call([], [], "()")]),
+        (Sig([(0, 70)], [(3, 71)], None, [(1, None)], 4), "lambda", [Call([10, 11], [(1, 40), (0, 41)], "(10, 11, p1=40, **{'p0': 41})")]),
     ]
     for i, (sig, variant, calls) in enumerate(corpus):
         sig.method = variant == "method"
@@ -684,7 +688,6 @@ def run_bind_e2e(ck, report):
             report({"class": "e2e-literal-not-found"}, "no literal for the probe port in the emitted VHDL", rep, no_input=True)
             continue
         spec_ok = True
-        local_default = variant in ("local", "lambda") and uses_default(sig, c)
         if pr.cpy[0] == "ok" and pr.tr[0] == "ok" and pr.cpy[1] != pr.tr[1]:
             spec_ok = False
             report({"class": "e2e-binds-differently", "variant": variant},
@@ -694,22 +697,6 @@ def run_bind_e2e(ck, report):
             cls = "duplicate-keyword-accepted" if c.has_dup() else "cpython-rejected-call-accepted"
             report({"class": cls, "level": "compiler"}, "the compiler accepts a call that CPython rejects (%s)" % (pr.cpy[2][:80],), rep)
         model_ok = i not in bad
-        if pr.meta["classify_crash"] and pr.tr[0] == "err" and "_fields" in pr.tr[2]:
-            # modelled over-rejection (a defect, not a violation of C10): _ClassifyNames._visit_fn_or_lambda visits
-            # args.kw_defaults, which holds None for a keyword-only parameter without default -> every LOCAL function /
-            # lambda with a required keyword-only parameter is rejected with AttributeError
-            ck.count("local_required_kwonly_rejected")
-            ck.obligation(spec_ok)
-            continue
-        if not model_ok and spec_ok and local_default and pr.tr[0] == "err":
-            # model says accepted, compiler rejects: defaults of LOCAL functions/lambdas are bound to the
-            # out.Value statement instead of its result; the neighbouring input with a wrong VALUE is in the
-            # differential corpus (`def h(y=None): return 1 if y is None else 2`)
-            ck.obligation(False)
-            report({"class": "local-function-default-is-statement"},
-                   "default value of a local function / lambda is bound to the tracer's statement object, not its value "
-                   "(rejected here; yields a wrong constant when only tested with `is`)", rep)
-            continue
         ck.obligation(model_ok and spec_ok)
         if not model_ok and spec_ok:
             report({"class": "bind-model-vs-compiler", "variant": variant},
@@ -798,15 +785,35 @@ def _lookup(T, c, m):
     return None
 
 
+def _is_sub(T, c, d):
+    while c is not None:
+        if c == d:
+            return True
+        c = T[c][0]
+    return False
+
+
 def predict_dispatch_reject(T, l, r, op, rop, is_cmp, is_eq):
     """python mirror of Disp.tracer_binop / tracer_compare - used ONLY to schedule probes that are expected to be
     rejected into designs of their own (a wrong prediction costs a recompilation round, nothing else)"""
     def tc(c, m, other):
         lk = _lookup(T, c, m)
         return lk is not None and other not in lk[1]
-    if is_cmp and not is_eq and _lookup(T, l, op) is None:
-        return True
-    return not (tc(l, op, r) or tc(r, rop, l))
+    if not is_cmp:
+        if l == r:
+            return not tc(l, op, r)
+        return not (tc(l, op, r) or tc(r, rop, l))
+    att = [(l, op, r), (r, rop, l)]
+    if l != r and _is_sub(T, r, l):
+        att.reverse()
+    for c, m, o in att:
+        lk = _lookup(T, c, m)
+        if lk is None:
+            if not is_eq:
+                return True
+        elif o not in lk[1]:
+            return False
+    return True
 
 
 def run_dispatch_e2e(ck, report):
@@ -814,9 +821,9 @@ def run_dispatch_e2e(ck, report):
     n_tab = 10 if ck.tier == "quick" else 100
     programs = []
     fixed = [
-        [(None, {0: []}), (0, {1: []})],                       # C10_dispatch_refuted
-        [(None, {1: []})],                                     # C10_dispatch_same_type_refuted
-        [(None, {4: []}), (0, {5: []})],                       # C10_compare_refuted
+        [(None, {0: []}), (0, {1: []})],                       # regression: subclass overrides the reflected method
+        [(None, {1: []})],                                     # regression: same type, only the reflected method
+        [(None, {4: []}), (0, {5: []})],                       # regression: comparison, subclass on the right
         [(None, {0: [1]}), (None, {1: []})],                   # reflected fallback
         [(None, {0: [], 1: []}), (0, {})],                     # subclass without override: no priority
     ]
@@ -871,11 +878,10 @@ def run_dispatch_e2e(ck, report):
         if pr.cpy[0] == "ok" and pr.tr[0] == "ok" and pr.cpy[1] != pr.tr[1]:
             spec_ok = False
             report({"class": "compare-dispatch-differs" if m["is_cmp"] else "binop-dispatch-differs"},
-                   "operator dispatch of the tracer selects a different method than CPython (no subclass-priority rule): "
-                   "different constant", rep)
+                   "operator dispatch of the tracer selects a different method than CPython: different constant", rep)
         elif pr.cpy[0] != "ok" and pr.tr[0] == "ok":
-            # CPython raises TypeError, the tracer produces a value: not counted as a violation (CPython rejects the
-            # program), but recorded
+            # CPython raises TypeError, the tracer produces a value: C10_dispatch_agrees says this cannot happen
+            # for the modelled code, so it shows up as a model mismatch below; recorded
             ck.count("dispatch_cpython_rejects_tracer_accepts")
         model_ok = i not in bad
         ck.obligation(model_ok and spec_ok)
@@ -1599,9 +1605,15 @@ def diff_tags(pre, elems):
 BIND_MSG = re.compile(r"got multiple values|unexpected keyword|positional argument|missing \d+ required|keyword-only|positional-only")
 
 DIFF_CORPUS = [
-    # (body, what it pins)
+    # (body, what it pins) - the first nine are the failing inputs of the defects fixed by bf02a0d, bf64bc4, d02d2a3,
+    # 693e83d, 571f6ca, b791a08 (regression corpus)
     (["def h(y=None):", "    return 1 if y is None else 2", "return dig((h(),))"], "local-def default tested with `is`"),
     (["return dig(((P(1) + Q(2)).v,))"], "subclass overrides reflected method"),
+    (["return dig(((P(5) + Q(9)).v, (P(0) + Q(4)), ((P(2, -3) + 5) + Q(2, z=5)).w, ((-Q(4, z=1)) + Q(5)), (12 - (P(3, 3) + Q(4))).get(-1, 1, 12)))"],
+     "subclass overrides reflected method (generated)"),
+    (["v1, *s2, v3 = (1, 3, 1, 3,)", "a, *b = (4, 5, 6)", "return dig((s2, b, [*b, v1], (*s2, a)))"], "starred unpack (generated)"),
+    (["def f(x, y=7):", "    return x * 3 + y", "g = lambda a, b=3: a - b", "return dig((f(1), f(1, 2), g(5), mk_adder(2)(3), mk_scaler(1)(4)))"],
+     "defaults of local functions and lambdas"),
     (["return dig((P(3) < Q(1), Q(1) > P(3)))"], "comparison with subclass on the right"),
     (["a, *b = (1, 2, 3)", "return dig((a, b, isinstance(b, list)))"], "starred assignment target from a tuple is a list"),
     (["return dig((len([1 for q in (*(12, 0), 5)]), [q for q in (7, *(1, 2))]))"], "starred element in a tuple display"),
@@ -1637,10 +1649,6 @@ def run_diff(ck, report):
             pre, elems = g.probe()
             probes.append(Probe(diff_body(pre, elems), meta={"tags": diff_tags(pre, elems), "pre": pre, "elems": elems}))
         programs.append(Program("df%03d" % i, DIFF_DEFS % ks, probes))
-    # expected rejections (scheduling only): known over-rejections / findings
-    for P in programs:
-        for pr in P.probes:
-            pr.meta["expect_reject"] = any(t in pr.meta["tags"] for t in ("closure-local-default", "lambda-default", "local-def-default"))
     run_programs(ck, "diff", programs, max_rejected_per_program=per)
     # reduction round: failing probes -> one element at a time
     failing = [(P, pr) for P in programs for pr in P.probes
@@ -1724,9 +1732,8 @@ def run(ck: common.Check, replay=None):
         "operand; `!=`, `<=`/`>=`, in-place and unary operators are not modelled (differential only)",
         "no Gallina semantics of closures/nonlocal/classes/super()/properties/comprehensions/unpacking/subscripts/isinstance: "
         "these clauses of C10 are covered by differential testing only (coverage.differential), never counted as obligations",
-        "modelled over-rejections of the tracer (defects, not violations of C10): local functions/lambdas with a required keyword-only "
-        "parameter are rejected (_ClassifyNames visits kw_defaults=None); classes that inherit an ordering method from object are "
-        "rejected in comparisons",
+        "modelled over-rejection of the tracer (not a violation of C10): a class that inherits an ordering method from object is "
+        "rejected in comparisons; == of objects without __eq__ is rejected where CPython compares identities",
     ]
     if replay is not None and replay.get("sig") is not None:
         run_bind(ck, report, replay)
